@@ -1186,7 +1186,7 @@ func ruleC09(c *Ctx) {
 			var guard string
 			for _, ea := range allAtoms(fn, R) {
 				s := ea.Atom.String()
-				if strings.HasPrefix(s, "+makemap[*] -phi{0 | phi{"+fRepl+"GetRevisionCounter($0.backend,$0.replicas[*].Address)#0") && strings.HasSuffix(s, "!=0") {
+				if strings.HasPrefix(s, "+makemap[*] -phi{") && strings.Contains(s, fRepl+"GetRevisionCounter($0.backend,$0.replicas[*].Address)#0") && strings.Contains(s, "| 0 |") && strings.HasSuffix(s, "!=0") {
 					guard = s
 				}
 			}
@@ -1207,7 +1207,7 @@ func ruleC09(c *Ctx) {
 			mx := false
 			for _, ea := range allAtoms(fn, R) {
 				s := ea.Atom.String()
-				if strings.HasPrefix(s, "+"+fRepl+"GetRevisionCounter($0.backend,$0.replicas[*].Address)#0 -phi{0 |") && strings.HasSuffix(s, "-1 >=0") {
+				if strings.HasPrefix(s, "+"+fRepl+"GetRevisionCounter($0.backend,$0.replicas[*].Address)#0 -phi{") && strings.Contains(s, "| 0 |") && strings.HasSuffix(s, "-1 >=0") {
 					mx = true
 				}
 			}
